@@ -25,6 +25,7 @@ type Case struct {
 	Cfg    WorldCfg          `json:"cfg"`
 	P      map[string]int    `json:"p,omitempty"`
 	S      map[string]string `json:"s,omitempty"`
+	L      []string          `json:"l,omitempty"`
 }
 
 // Result is what a worker reports for one case.
